@@ -35,6 +35,16 @@ class ArgProbe(core.Probe):
         self.count += 1
         return cid
 
+    @replicated
+    def takekw(self, **kwargs):
+        # keyword-only call: no positional argument at all (the id travels as a keyword too)
+        kwargs = dict(kwargs)
+        cid = kwargs.pop('cid_')
+        self._sim.on_apply(self, 'takekw', cid)
+        self._sim.arg_log.append((self._simname, cid, (), kwargs))
+        self.count += 1
+        return cid
+
 
 class ArgSim(cluster.Sim):
     probe_class = ArgProbe
@@ -42,6 +52,15 @@ class ArgSim(cluster.Sim):
     def __init__(self, cfg, workdir=None):
         self.arg_log = []
         super(ArgSim, self).__init__(cfg, workdir)
+
+    def decode(self, cmd):
+        # the generic monitor expects the command id as first positional argument; takekw carries it as keyword
+        d = super(ArgSim, self).decode(cmd)
+        if d is not None and d[0] == 'takekw':
+            c = core.ppickle.loads(bytes(cmd)[1:])
+            kw = c[2] if isinstance(c, tuple) and len(c) > 2 else {}
+            return ('takekw', (kw.get('cid_'),))
+        return d
 
     def extend_model(self, upto):
         # the Probe fold model does not know 'take'; C11 has its own oracle
@@ -100,7 +119,8 @@ KW = ['x', 'y', 'data', 'k_w', 'self_', 'cb']
 
 def call_spec():
     shaped = st.fixed_dictionaries({'args': st.lists(value_spec(), max_size=3),
-                                    'kwargs': st.lists(st.tuples(st.sampled_from(KW), value_spec()), max_size=2, unique_by=lambda t: t[0])})
+                                    'kwargs': st.lists(st.tuples(st.sampled_from(KW), value_spec()), max_size=2, unique_by=lambda t: t[0]),
+                                    'kwonly': st.sampled_from([False, False, True])})
     sized = st.fixed_dictionaries({'k': st.integers(1, 4), 'delta': st.integers(-96, 32)})
     rnd = st.fixed_dictionaries({'size': st.integers(0, 300000)})
     return st.one_of(shaped, sized, sized, rnd)
@@ -138,6 +158,9 @@ def run_case(case):
                 args = [build(a) for a in call['args']]
                 kwargs = dict((k, build(v)) for k, v in call['kwargs'])
                 classes.add('shaped')
+                if call.get('kwonly'):
+                    args = []
+                    classes.add('keyword-only-call')
             else:
                 size = call['size'] if 'size' in call else max(0, call['k'] * case['b'] + call['delta'])
                 if size > 400000:
@@ -151,7 +174,10 @@ def run_case(case):
             sim.next_cid += 1
             cbs = []
             obj = sim.nodes[name]
-            sim.call(name, lambda: obj.take(cid, *args, callback=lambda r, e: cbs.append((r, e)), **kwargs))
+            if 'args' in call and call.get('kwonly'):
+                sim.call(name, lambda: obj.takekw(callback=lambda r, e: cbs.append((r, e)), cid_=cid, **kwargs))
+            else:
+                sim.call(name, lambda: obj.take(cid, *args, callback=lambda r, e: cbs.append((r, e)), **kwargs))
             for _ in range(60):
                 sim.calm_round()
                 if cbs and all(sum(1 for e in sim.arg_log if e[0] == n and e[1] == cid) >= 1 for n in sim.live()):
